@@ -434,6 +434,10 @@ def main(argv=None):
         from .selftest import determinism
 
         return determinism(argv[1:])
+    if argv[0] == "selftest-replays":
+        from .selftest import replays
+
+        return replays(argv[1:])
     if argv[0] == "selftest-mutants":
         from .selftest import mutants
 
